@@ -138,3 +138,64 @@ Print Assumptions C02_root_table_is_graph_slots.
 Print Assumptions C02_confirmed_closed_on_every_run.
 Print Assumptions C02_process_never_out_of_fuel.
 Print Assumptions C02_bootstrap_never_out_of_fuel.
+
+(* ================= C02 through L1 (worker link; proofs/LinkDeliver.v) =================
+   C02_process_delivers above speaks about reachability through the EVENT STORE.  On the states of the
+   refinement (LinkStep.Sim: the model state simulates the reference's table T of the processed events Dr)
+   the event store holds exactly the reference's events, so that reachability is the reference's ancestry:
+   C02_store_reachability_is_graph_ancestry.  Hence the blocks that the Process of an event accepted by the
+   reference emits deliver, in turn and without repetition, exactly  anc*(Atropos)  in the reference's table,
+   minus what is confirmed already, minus what the earlier blocks of the call delivered:
+   C02_blocks_deliver_new_graph_ancestry (delivered_graph).  Its hypothesis K i (the confirmed marks are
+   ancestor-closed, only processed events are marked) is C02_confirmed_closed_on_every_run; Sim is what the
+   refinement theorems (props/C10.v) maintain along valid runs.
+   Cheaters (C03): the cheater list of every block is part of the compared output of the refinement theorems
+   (props/C10.v); on the reference side it is cheaters_of = the validators whose fork the Atropos' node sees in
+   the graph (nd_forks), so "cheaters = visible forkers at the graph level" is implied there. *)
+From LV Require Import spec.ElectionSpec proofs.BftRun proofs.BftMain proofs.BftGraph proofs.BftAccept proofs.BftProps
+  proofs.LinkVals proofs.LinkDefs proofs.LinkStep proofs.LinkExample proofs.LinkDeliver proofs.LinkDeliverExample.
+
+Theorem C02_store_reachability_is_graph_ancestry : forall ep lam vals T Dr es, wfTD vals T Dr ->
+  (forall e, In e Dr -> get_event es (VecIndex.eid (fe e)) = Some (to_aevent ep lam vals e)) ->
+  forall a x, In a T -> (AbftDfs.reach es (nd_id a) x <-> In x (nd_anc a)).
+Proof. exact reach_es_anc. Qed.
+
+Theorem C02_blocks_deliver_new_graph_ancestry : forall cap ep lam vals, vals_ok vals -> forall J K pol i T Dr B e,
+  Sim ep lam vals J K i T Dr B -> AbftClosedInv.K i ->
+  id_fresh K (VecIndex.eid (fe e)) -> ~ J (VecIndex.eid (fe e)) ->
+  parents_known T e -> nlookup (VecIndex.eid (fe e)) T = None -> (VecIndex.ecr (fe e) < length vals)%nat -> ev_wf T e ->
+  r_frame_ok vals T (mk_node (length vals) T e) = true -> few_forkers vals (mk_node (length vals) T e :: T) ->
+  exists bl i' ldf ep', step cap pol sample i (OpP (to_aevent ep lam vals e)) = (ObsP None bl ldf ep', i', false) /\
+    delivered_graph (mk_node (length vals) T e :: T) (AbftDfs.marked (l_conf (i_st i))) bl /\
+    (existsb AbftSeal.is_sealed bl = false ->
+       forall x, AbftDfs.marked (l_conf (i_st i')) x <-> AbftDfs.marked (l_conf (i_st i)) x \/ exists b, In b bl /\ In x (b_delivered b)) /\
+    (forall b, In b bl -> b_seal b = policy_fn pol ep (b_frame b) 0 [] []).
+Proof. exact deliver_step. Qed.
+
+(* non-vacuity: the hypotheses hold at genesis; on the 48-event run the two blocks deliver 1 and 15 events:
+   exactly the reference's ancestry of the Atropos minus what was delivered before (by evaluation) *)
+Example C02_graph_delivery_example :
+  (Sim 1 (fun _ => 0%N) ex2_vals (fun _ => False) 48 (start 1 ex2_vals) [] [] [] /\ AbftClosedInv.K (start 1 ex2_vals)) /\
+  map (fun b => (b_frame b, b_atropos b, length (b_delivered b))) dx_blocks = [(1, 1000, 1%nat); (2, 1015, 15%nat)]%N /\
+  dx_check (table ex2_vals ex2_D) [] dx_blocks = true.
+Proof. exact (conj dx_hyps dx_delivered_is_new_ancestry). Qed.
+
+Print Assumptions C02_store_reachability_is_graph_ancestry.
+Print Assumptions C02_blocks_deliver_new_graph_ancestry.
+
+(* ---- over a whole run (proofs/LinkDeliverRun.v) ----
+   On a valid single-epoch run of the model (Build + Process per event, validators in canonical order, any
+   forkless-cause cache capacity) the blocks, in the order of emission, deliver without repetition exactly the
+   reference's ancestry of their Atropos minus what the EARLIER BLOCKS delivered: delivered_graph from the empty
+   set over the reference's final table.  abft's run invariants are carried by its step theorems; the extra
+   invariant is "confirmed marks = union of the delivered lists so far". *)
+From LV Require Import proofs.LinkDeliverRun.
+Theorem C02_run_delivers_new_graph_ancestry : forall cap lam vals, vals_ok vals -> forall K D,
+  valid_run vals D -> (forall e, In e D -> id_fresh K (VecIndex.eid (fe e))) -> (N.of_nat (length D) <= K)%N -> (K < 2 ^ 192)%N ->
+  delivered_graph (table vals D) (fun _ => False) (blocks_in (run cap [] sample (start 1 vals) (abft_ops 1 lam vals D))).
+Proof. exact run_delivers. Qed.
+Example C02_run_delivery_example :
+  valid_run ex2_vals ex2_D /\ delivered_graph (table ex2_vals ex2_D) (fun _ => False) dx_blocks /\
+  map (fun b => (b_frame b, b_atropos b, length (b_delivered b))) dx_blocks = [(1, 1000, 1%nat); (2, 1015, 15%nat)]%N.
+Proof. exact (conj ex2_valid (conj dx_run_delivers (proj1 dx_delivered_is_new_ancestry))). Qed.
+Print Assumptions C02_run_delivers_new_graph_ancestry.
